@@ -303,6 +303,8 @@ def post? : Sexp → Option Post
     let x ← dval? x
     pure { id := ← id.nat?, run := fun _ => (x, none) }
   | .list [.atom "p", id, .atom "fail"] => do pure { id := ← id.nat?, run := fun d => (d, some .plain) }
+  -- an ordinary error that WRAPS a ZogIssue is still an ordinary error
+  | .list [.atom "p", id, .atom "failwrap"] => do pure { id := ← id.nat?, run := fun d => (d, some .plain) }
   | .list [.atom "p", id, .atom "incfail"] => do pure { id := ← id.nat?, run := fun d => (bump d, some .plain) }
   | .list [.atom "p", id, .atom "failissue", code, path, dtype, msg] => do
     let i : Issue := { code := ← code.str?, path := ← path.str?, dtype := ← dtype.str?, params := [], message := ← msg.str? }
@@ -435,6 +437,7 @@ partial def schema? (o : Oracle) : Sexp → Option Schema
     match kind, args with
     | "idany", [] => pure (mk nonNil (fun v => (v, none)) (fun d => (d, none)))
     | "fail", [] => pure (mk nonNil (fun v => (v, some .plain)) (fun d => (d, none)))
+    | "failwrap", [] => pure (mk nonNil (fun v => (v, some .plain)) (fun d => (d, none)))
     | "failissue", [code, path, dtype, msg] => do
       let i : Issue := { code := ← code.str?, path := ← path.str?, dtype := ← dtype.str?, params := [], message := ← msg.str? }
       pure (mk nonNil (fun v => (v, some (.issue i))) (fun d => (d, none)))
